@@ -25,6 +25,15 @@ spec fn bin_shape(old: &State, new: &State, r: Xresult) -> bool {
             && (forall|i: int| 0 <= i < new.data_stack@.len() ==> new.data_stack@[i] == old.data_stack@[i])
 }
 
+// the same without the no-tags clause (words that return an element of a collection)
+spec fn bin_shape_any(old: &State, new: &State, r: Xresult) -> bool {
+    &&& !bin_args(old) ==> r is Err
+    &&& r is Ok ==> bin_args(old) && new.data_stack@.len() == old.data_stack@.len() - 1
+            && (forall|i: int| 0 <= i < old.data_stack@.len() - 2 ==> new.data_stack@[i] == old.data_stack@[i])
+    &&& r is Err ==> new.data_stack@.len() <= old.data_stack@.len()
+            && (forall|i: int| 0 <= i < new.data_stack@.len() ==> new.data_stack@[i] == old.data_stack@[i])
+}
+
 spec fn un_shape(old: &State, new: &State, r: Xresult) -> bool {
     &&& !un_arg(old) ==> r is Err
     &&& r is Ok ==> un_arg(old) && new.data_stack@.len() == old.data_stack@.len()
